@@ -551,7 +551,8 @@ class EvalFunc:
                     if type(srv_name) is not str or srv_name.count(".") != 1:
                         raise ValueError(f"{exc_mesg}: @service argument must be a string with one period")
                     domain, name = srv_name.split(".", 1)
-                    if name in (SERVICE_RELOAD, SERVICE_JUPYTER_KERNEL_START):
+                    # (Home Assistant lower-cases service names: pyscript.Reload is pyscript.reload)
+                    if name.lower() in (SERVICE_RELOAD, SERVICE_JUPYTER_KERNEL_START):
                         raise SyntaxError(f"{exc_mesg}: @service conflicts with builtin service")
                     if srv_name in self.trigger_service:
                         # already registered by this function: trigger_stop() removes each name once
